@@ -116,6 +116,7 @@ func c13Tree(c *core.Ctx, src []byte, ver string, depth int, only []string) {
 	// replaying a path on a fresh tree = the successor function (live trees cannot be cloned)
 	var rec func(path []int)
 	check := func(path []int) bool {
+		c.Touch() // one history is the unit of work for the wall watchdog, not the whole tree
 		root := parse()
 		for k, oi := range path {
 			out := c13ops[oi].fn(root)
@@ -255,7 +256,11 @@ func c13Run(c *core.Ctx) {
 				continue
 			}
 			setBlock(&srcCase{})
-			c13Tree(c, []byte(s), v, depth+2, nil)
+			d := depth + 2
+			if len(s) > 600 {
+				d = depth + 1 // the long-token programs: one level less (every history replays the whole program)
+			}
+			c13Tree(c, []byte(s), v, d, nil)
 		}
 	}
 }
